@@ -29,7 +29,7 @@ Definition d_dummy : mdata :=
 Definition get_ok (c : cres mdata) : mdata := match c with COk d => d | _ => d_dummy end.
 
 Definition E0 : env :=
-  {| e_file_types := [("User", true); ("QueryUsersReq", true); ("Client", false)];
+  {| e_pkg_types := [("User", true); ("QueryUsersReq", true); ("Client", false)];
      e_sel := [(("context", "Context"), SelCtx)];
      e_structs := [(("", "User"), [{| fd_names := ["ID"]; fd_type := "string"; fd_star := false; fd_tag := Some "`json:""id""`" |};
                                    {| fd_names := ["Name"]; fd_type := "string"; fd_star := false; fd_tag := Some "`json:""name""`" |}]);
@@ -153,7 +153,7 @@ Proof.
   exists (get_ok (cook_method ido E0 m_query)). conjs; vmc.
 Qed.
 
-(* K_rest_body_no_struct / K_rest_ptr_map: the emitted method is not valid Go, whatever the arguments *)
+(* K_rest_ptr_map: the emitted method is not valid Go, whatever the arguments *)
 Definition m_nobody : method_decl :=
   {| md_name := "A"; md_doc := Some (doc_lines ["shoot: Post(""/a/{id}"")"]);
      md_params := [ctxp; {| pd_names := ["id"]; pd_type := TIdent "int" |}; {| pd_names := ["note"]; pd_type := TIdent "string" |}] |}.
@@ -163,9 +163,10 @@ Definition m_ptrmap : method_decl :=
 Lemma static_not_ok_no_compile : forall fmt_v join_path json_marshal url_query sigma_d hdrs d base args,
   static_ok d = false -> exec fmt_v join_path json_marshal url_query sigma_d hdrs d base args = ONoCompile.
 Proof. intros. unfold exec. rewrite H. reflexivity. Qed.
-Lemma refuted_body_no_struct :
-  exists d, cook_method ido E0 m_nobody = COk d /\ static_ok d = false.
-Proof. exists (get_ok (cook_method ido E0 m_nobody)). conjs; vmc. Qed.
+(* repaired K_rest_body_no_struct: the method is refused with a diagnostic (shoot exits 1) *)
+Lemma body_verb_without_struct_refused :
+  cook_method ido E0 m_nobody = CFatal "a body verb needs a struct parameter as request body".
+Proof. vmc. Qed.
 Lemma refuted_ptr_map :
   exists d, cook_method ido E0 m_ptrmap = COk d /\ static_ok d = false.
 Proof. exists (get_ok (cook_method ido E0 m_ptrmap)). conjs; vmc. Qed.
@@ -179,17 +180,14 @@ Lemma refuted_subst_rescan :
   fill val_rescan toks_rescan = "/u/{name}/nm".
 Proof. conjs; vmc. Qed.
 
-(* K_rest_two_maps: only the last map parameter reaches the query *)
+(* repaired K_rest_two_maps: a second query map is refused with a diagnostic *)
 Definition m_twomaps : method_decl :=
   {| md_name := "T"; md_doc := Some (doc_lines ["shoot: Get(""/maps"")"]);
      md_params := [{| pd_names := ["a"; "b"]; pd_type := TMapT |}] |}.
-Lemma refuted_two_maps :
-  exists d r, cook_method ido E0 m_twomaps = COk d /\
-    exec fmt_demo join_demo json_demo noq idd [] d "B" [("a", AMap [("ka", SStr "1")]); ("b", AMap [("kb", SStr "2")])] = OSent r /\
-    rq_query r = Some [("kb", "2")].
-Proof.
-  exists (get_ok (cook_method ido E0 m_twomaps)).
-  exists {| rq_verb := "GET"; rq_path := "/maps"; rq_url := "B|/maps"; rq_query := Some [("kb", "2")];
-            rq_headers := []; rq_body := None; rq_ctx := None |}.
-  conjs; vmc.
-Qed.
+Lemma second_map_refused : cook_method ido E0 m_twomaps = CFatal "ambiguous query map binding".
+Proof. vmc. Qed.
+
+(* repaired K_rest_header_value_trim: the value of a directive entry keeps its leading non-word characters *)
+Lemma header_value_kept :
+  parse_headers (doc_lines ["shoot: headers={Accept:*/*},{X-Sig: (a)}"]) = [("Accept", "*/*"); ("X-Sig", "(a)")].
+Proof. vmc. Qed.
